@@ -89,10 +89,10 @@ PROPS = {
         'assumptions': ['max < 2^64-1 (the Go loop counter does not wrap)'],
     },
     'C01': {
-        'lean_targets': ['Cqos.Props.C01', 'Cqos.Facts.GluePrioV2', 'Cqos.Facts.GluePrioV1'],
+        'lean_targets': ['Cqos.Props.C01', 'Cqos.Props.C01s', 'Cqos.Facts.GluePrioV2', 'Cqos.Facts.GluePrioV1'],
         'facts': True,
         'theorems': ['Cqos.C01.step_inv', 'Cqos.C01.run_inv', 'Cqos.C01.c01_capacity', 'Cqos.C01.c01_v2',
-                     'Cqos.C01.c01_v1', 'Cqos.C01.c01_simple', 'Cqos.C01.drive_is_run', 'Cqos.Facts.gluePrioV2', 'Cqos.Facts.gluePrioV1'],
+                     'Cqos.C01.c01_v1', 'Cqos.C01.c01_simple', 'Cqos.C01.drive_is_run', 'Cqos.Facts.gluePrioV2', 'Cqos.Facts.gluePrioV1', 'Cqos.C01.step_delivered_inflight', 'Cqos.C01.sstep_inv', 'Cqos.C01.c01_simple_handlers'],
         'runs': [{'cmd': 'stepper', 'args': ['-family', 'mixed']},
                  {'cmd': 'stepper', 'args': ['-family', 'faulty']},
                  {'cmd': 'stepper', 'args': ['-family', 'dynamic']},
@@ -104,7 +104,10 @@ PROPS = {
                        'machine; arrivals, closes, releases, Stop, GracefulStop, AddInput/RemoveInput and every select '
                        'choice are actions): in-flight = delivered - release issued never exceeds H and no unsigned '
                        'subtraction wraps, for EVERY divider function (faulty ones included, safeDivide is modelled) and '
-                       'every strategic distribution. The machine is tied to the real disciplines by the white-box '
+                       'every strategic distribution. Simplified disciplines: a layered machine (handler goroutines = receive, Handle, '
+                       'Release; releases are issued only by a handler whose Handle returned) in which the number of running Handle '
+                       'calls never exceeds H (c01_simple_handlers), the handler order being read off the regenerated glue skeleton. '
+                       'The machine is tied to the real disciplines by the white-box '
                        'stepper: real unexported methods called one at a time on generated scripts, state projection '
                        'compared with the machine after every operation'),
         'level_note': ('trusted: correspondence by differential stepping (exact equality of actual/tactic/strategic/'
@@ -310,12 +313,12 @@ PROPS = {
         'assumptions': ['H and totals < 2^63 (the unsigned difference after-before does not wrap onto the dividend)'],
     },
     'C07': {
-        'lean_targets': ['Cqos.Props.C07', 'Cqos.Props.C07p', 'Cqos.Facts.GluePrioV2', 'Cqos.Facts.GluePrioV1'],
+        'lean_targets': ['Cqos.Props.C07', 'Cqos.Props.C07p', 'Cqos.Props.C01s', 'Cqos.Facts.GluePrioV2', 'Cqos.Facts.GluePrioV1'],
         'facts': True,
         'theorems': ['Cqos.C07.tinv_step', 'Cqos.C07.tinv_run', 'Cqos.C07.c07_v2_only_then', 'Cqos.C07.c07_v1_graceful_only_then',
                      'Cqos.C07.stopped_false_v2', 'Cqos.C07.c07_no_error_calc', 'Cqos.C07.c07_no_error_recalc',
                      'Cqos.C15.c15_drain_progress', 'Cqos.C07.c07_prompt_step', 'Cqos.C07.c07_prompt',
-                     'Cqos.C07.c07_prompt_reachable', 'Cqos.C07.c07_prompt_unique', 'Cqos.C07.v2_static_run', 'Cqos.Facts.gluePrioV2', 'Cqos.Facts.gluePrioV1'],
+                     'Cqos.C07.c07_prompt_reachable', 'Cqos.C07.c07_prompt_unique', 'Cqos.C07.v2_static_run', 'Cqos.Facts.gluePrioV2', 'Cqos.Facts.gluePrioV1', 'Cqos.C01.c07_simple_v2'],
         'runs': [{'cmd': 'stepper', 'args': ['-family', 'terminate']}, {'cmd': 'stepper', 'args': ['-family', 'mixed']},
                  {'cmd': 'stepper', 'args': ['-family', 'dynamic']},
                  {'cmd': 'blackbox', 'args': ['-scenario', 'prio2,prio1,simple1']}],
